@@ -326,6 +326,8 @@ def run(ctx):
     walk_rule(ctx, syn)
     from props.c15 import workdir_rule
     workdir_rule(ctx, syn, rid="C05.WORKDIR")   # the @include of a stand-off file is written through the same helper
+    from props.c11 import name_rule
+    name_rule(ctx, rid="C05.NAME")   # to_file(name) / from_file(name): the manifest or store file is written under the name given
     mir_rules(ctx)
 
 
